@@ -475,8 +475,27 @@ class Interp:
         return self.lookup(n.id, n)
 
     def e_JoinedStr(self, n):
-        # evaluate embedded expressions for their exceptions? A-LOG: formatting has no effect and does not raise
-        return Str("<fstring>")
+        # f-strings built from concrete strings (dataset names, keys) are evaluated; anything else is an opaque
+        # string (A-LOG: formatting of symbolic values for log messages has no effect and does not raise)
+        parts = []
+        for v in n.values:
+            if isinstance(v, ast.Constant):
+                parts.append(str(v.value))
+                continue
+            e = v.value if isinstance(v, ast.FormattedValue) else None
+            if e is None or v.format_spec is not None or not isinstance(e, (ast.Name, ast.Constant)):
+                return Str("<fstring>")
+            try:
+                val = self.ev(e)
+            except Unsupported:
+                return Str("<fstring>")
+            if isinstance(val, Str) and not val.v.startswith("<"):
+                parts.append(val.v)
+            elif isinstance(val, Z) and val.kind == "int" and z3.is_int_value(z3.simplify(val.e)):
+                parts.append(str(z3.simplify(val.e).as_long()))
+            else:
+                return Str("<fstring>")
+        return Str("".join(parts))
 
     def e_Tuple(self, n):
         items = []
